@@ -206,6 +206,7 @@ func c11History(o *Out, r *rand.Rand, sm selMode) {
 	ops = append(ops, updateOp(sel, cur, sm.model == "wrr"))
 	updates := 0
 	everEligible := false
+	var passed map[string]string
 	steps := 3 + r.Intn(10)
 	for st := 0; st < steps; st++ {
 		if r.Intn(3) == 0 {
@@ -230,10 +231,20 @@ func c11History(o *Out, r *rand.Rand, sm selMode) {
 			}
 			cur = next
 			hist = append(hist, "update["+setStr(cur)+"]")
+			// the map handed to the selector: a fresh one, or (a caller that keeps ONE map and edits it)
+			// the very map it was given last time, changed in place
 			cp := map[string]string{}
+			if passed != nil && r.Intn(3) == 0 {
+				cp = passed
+				for k := range cp {
+					delete(cp, k)
+				}
+				hist[len(hist)-1] += "(same map instance, edited in place)"
+			}
 			for k, v := range cur {
 				cp[k] = v
 			}
+			passed = cp
 			var upv interface{}
 			func() {
 				defer func() {
@@ -404,6 +415,28 @@ func c12Run(o *Out, ws []int, upd []int) {
 		ops = append(ops, updateOp(sel, m2, true))
 		if !run(m2, upd, "after update") {
 			return
+		}
+		// a caller that keeps one map and edits it: the same instance again, with the weights rotated
+		// and the last server dropped
+		if len(upd) >= 2 {
+			upd3 := append(append([]int{}, upd[1:len(upd)-1]...), upd[0])
+			for k := range m2 {
+				delete(m2, k)
+			}
+			for k, v := range weightsMap(upd3) {
+				m2[k] = v
+			}
+			for i := 0; i < 1+len(upd)/2; i++ {
+				res, _ := safeSelect(sel, "Svc", "M", i)
+				ops = append(ops, "S/0")
+				outs = append(outs, res)
+			}
+			sel.UpdateServer(m2)
+			ops = append(ops, updateOp(sel, m2, true))
+			rp["second_update_same_map_instance"] = upd3
+			if !run(m2, upd3, "after a second update that passes the same map instance, edited in place") {
+				return
+			}
 		}
 	}
 	o.Case("sel wrr "+strings.Join(ops, " "), strings.Join(outs, ","), len(ws) >= 2)
